@@ -12,8 +12,17 @@ Local Open Scope nat_scope.
 
 Definition clean_tok (t : token) : bool := match t with TElse | TInput | TDef => false | _ => true end.
 Definition clean_line (ts : list token) : bool := forallb clean_tok ts.
+(* for the function table only DEF matters *)
+Definition nodef_tok (t : token) : bool := match t with TDef => false | _ => true end.
+Definition nodef_line (ts : list token) : bool := forallb nodef_tok ts.
 Definition CleanStore (s : interp) : Prop :=
-  (forall n ts, toks_get n (st_toks s) = Some ts -> clean_line ts = true) /\ immediate s = [].
+  (forall n ts, toks_get n (st_toks s) = Some ts -> nodef_line ts = true) /\ immediate s = [].
+
+Lemma clean_nodef ts : clean_line ts = true -> nodef_line ts = true.
+Proof.
+  unfold clean_line, nodef_line. rewrite !forallb_forall. intros H t Ht. specialize (H t Ht).
+  destruct t; try reflexivity; discriminate H.
+Qed.
 
 Definition FN (s s' : interp) : Prop :=
   st_toks s' = st_toks s /\ st_keys s' = st_keys s /\ immediate s' = immediate s
@@ -237,7 +246,7 @@ Lemma option_eq_dec_tdef (t : option token) : {t = Some TDef} + {t <> Some TDef}
 Proof. destruct t as [t|]; [destruct t|]; first [left; reflexivity | right; discriminate]. Qed.
 
 (* the token the dispatcher sees is a token of the line the cursor is on *)
-Lemma next_token_clean s t s' : CleanStore s -> next_token s = (Ok (Some t), s') -> clean_tok t = true.
+Lemma next_token_clean s t s' : CleanStore s -> next_token s = (Ok (Some t), s') -> nodef_tok t = true.
 Proof.
   intros [Hc Hi] E. destruct s as [tk ks im [ln ix] ? ? ? ? ? ? ? ? ? ? ? ? ? ? ?]. cbn in Hc, Hi. subst im.
   unfold next_token, peek_next_token, cur_tokens, tokens_for_line, bind, get, modify, ret in E. cbn in E.
@@ -245,7 +254,7 @@ Proof.
   - destruct (toks_get n tk) as [ts|] eqn:Et; [|discriminate E]. cbn in E.
     destruct (nth_error ts ix) as [t0|] eqn:En; [|discriminate E].
     unfold advance, modify in E. cbn in E. injection E as <- _.
-    pose proof (Hc n ts Et) as H. unfold clean_line in H. rewrite forallb_forall in H. apply H.
+    pose proof (Hc n ts Et) as H. unfold nodef_line in H. rewrite forallb_forall in H. apply H.
     eapply nth_error_In; eassumption.
   - cbn in E. destruct ix; discriminate E.
 Qed.
